@@ -287,13 +287,13 @@ def write_replay(pid, tag, payload):
 
 # ---------------------------------------------------------------- main
 
-def run_plan(plan, tier, seed, wd):
+def run_plan(plan, tier, seed, wd, extra_cfgs=()):
     """runs the correspondence + oracle part; returns results per configuration"""
     ok, driver = E.build_driver()
     if not ok:
         raise RuntimeError("driver build failed: " + driver[-1500:])
     results = []
-    for cfg in plan.cfgs(tier):
+    for cfg in list(plan.cfgs(tier)) + [c for c in extra_cfgs if c not in plan.cfgs(tier)]:
         ok, harness = E.build_harness(cfg)
         if not ok:
             results.append({"cfg": cfg, "build_failed": harness[-3000:]})
@@ -352,10 +352,13 @@ def main():
         cg = {"ok": False, "translated": [], "proved": [], "failed": {}, "skipped": {}, "problems": ["core translator failed: %s" % ex]}
     proved = set(cg.get("proved", []))
 
-    def core_name(item):          # srcfp item name -> translated function name
-        return item.split("::")[-1] if item.startswith("CircularBuffer::") else item
+    # srcfp item name -> translated function name (the translator reports which source item each function is)
+    item_of = {v: k for k, v in (cg.get("items") or {}).items()}
+
+    def core_name(item):
+        return item_of.get(item)
     if not fp_ok and not fp.get("error"):
-        still = [n for n in fp.get("changed", []) if not (core_name(n) in proved and (n.startswith("CircularBuffer::") or "::" not in n))]
+        still = [n for n in fp.get("changed", []) if core_name(n) not in proved]
         if not still and not fp.get("removed") and not [n for n in fp.get("new_items", []) if n not in fp.get("changed", [])]:
             # every function whose text changed is one whose regenerated model is PROVED equal to the hand model:
             # a harmless rewrite, the theorems are still about this code
@@ -426,7 +429,14 @@ def main():
             if not fp_ok:
                 # numeric literals that are new in the changed functions steer the search: the harness is
                 # rebuilt for capacities around them and the wide families run there as well
-                steer = [t for t in srcfp.thresholds(fp) if 8 < t <= (1 << 17)][:24]
+                steer, nbig = [], 0
+                for t in srcfp.thresholds(fp):          # most telling first; large capacities are costly (the extracted model's store is a function): at most three above 2048
+                    if 8 < t <= 8200 and len(steer) < 24:
+                        if t > 2048:
+                            nbig += 1
+                            if nbig > 3:
+                                continue
+                        steer.append(t)
                 if "size_of" in (fp.get("new_features") or []) or any("size_of" in str(v.get("new_features")) for v in (fp.get("detail") or {}).values()):
                     # a new threshold on the element size: the steerable element type S is made larger than it
                     big = [l for l in fp.get("new_literals", []) if 64 <= l <= 16384]
@@ -442,7 +452,11 @@ def main():
                 # quick tier with a changed source text: the quick density at the steered capacities (minutes);
                 # otherwise the thorough case space
                 wide_tier = "quick" if (tier == "quick" and not fp_ok and proofs_ok and corr_ok) else "thorough"
-                wide = run_plan(plan, wide_tier, seed + 7919, os.path.join(wd, "wide"))
+                # a changed function that only exists in a feature-gated build is searched in that build as well
+                xcfg = []
+                if any("@unstable" in n for n in fp.get("changed", [])) and plan.spec is not None and pid != "C16":
+                    xcfg.append("unstable")
+                wide = run_plan(plan, wide_tier, seed + 7919, os.path.join(wd, "wide"), extra_cfgs=xcfg)
                 for r in wide:
                     if r.get("ofail"):
                         found = (r, r["ofail"][0])
